@@ -25,8 +25,8 @@ use crate::{
 use super::{
     asn1_type, asn1_value,
     common::{
-        extension_marker, identifier, in_braces, in_brackets, optional_comma, skip_ws_and_comments,
-        uppercase_identifier,
+        extension_marker, identifier, in_braces, in_brackets, optional_comma, reserved_words,
+        skip_ws_and_comments, uppercase_identifier,
     },
     constraint::{constraints, union_mark},
     error::ParserResult,
@@ -112,7 +112,7 @@ pub fn type_identifier(input: Input<'_>) -> ParserResult<'_, ObjectClassDefn> {
 pub fn instance_of(input: Input<'_>) -> ParserResult<'_, ASN1Type> {
     map(
         preceded(
-            tag(INSTANCE_OF),
+            reserved_words(INSTANCE_OF),
             pair(
                 skip_ws_and_comments(uppercase_identifier),
                 skip_ws_and_comments(opt(constraints)),
@@ -150,7 +150,7 @@ pub fn object_class_defn(input: Input<'_>) -> ParserResult<'_, ObjectClassDefn> 
                 skip_ws_and_comments(information_object_field),
                 optional_comma,
             ))),
-            opt(preceded(skip_ws_and_comments(tag(WITH_SYNTAX)), syntax)),
+            opt(preceded(skip_ws_and_comments(reserved_words(WITH_SYNTAX)), syntax)),
         ),
     ))
     .parse(input)
